@@ -12,6 +12,7 @@ INVARIANT OpsAreTransvections
 INVARIANT ReducedFormUnique
 INVARIANT RankDefinitionsAgree
 INVARIANT InverseTwoSided
+INVARIANT InverseIffOneExists
 INVARIANT NullspaceBasis
 INVARIANT TransposeInvolutive
 INVARIANT IdentityNeutral
